@@ -11,7 +11,7 @@
   (`PiPack.shape_indistinguishable`).
   SSE1: array length, cell lengths, table size and entry lengths are functions of the configuration (`SSE1.shape`).
   DP17: the arrays A_j (bucket count and byte length of every bucket) are a function of N and the configuration
-  (`DP17.arrays_shape`); the hash table is covered by the correspondence and the direct oracle.
+  (`DP17.arrays_shape`); the hash table has exactly N entries of `param_digest_size`-byte keys and values (`DP17.ht_shape`).
   SSE2: exactly N entries, one per posting, with addresses in the PRP's `8·l + bits(n+max)`-bit range (`SSE2.shape`), so
   equal N give equally large indexes (`SSE2.shape_indistinguishable`); the identifiers are stored in clear by design.
   PiPtr: the array has `blocks + 1` cells, every occupied one the ciphertext of a full identifier block, and the dictionary
@@ -24,8 +24,8 @@
   CT14: the whole index shape is `CT14.shapeFor cfg ⌈log2 N⌉` (`CT14.shape`).
   ANSS16: the whole index shape is `shapeFor cfg ⌈log2 N⌉` (`ANSS16.shape`): number of tables, entries per table and all
   lengths; the level-table bound that makes the padding sufficient (at most 2^(t+1-j) lists at level j) is part of it.
-  The other schemes' shape claims are decided by the correspondence (padding cells included) and the direct oracle on
-  pairs of databases with equal size parameter.
+  All nine schemes have a shape theorem; the correspondence (padding cells included) and the direct oracle on pairs of
+  databases with equal size parameter tie them to the code.
 -/
 import SSEPyVerif.Proofs.Schemes.ChainShape
 import SSEPyVerif.Proofs.Schemes.ChainCfg
@@ -36,6 +36,7 @@ import SSEPyVerif.Proofs.Schemes.DP17Shape
 import SSEPyVerif.Proofs.Schemes.SSE2Shape
 import SSEPyVerif.Proofs.Schemes.PiPtrShape
 import SSEPyVerif.Proofs.Schemes.Pi2LevShape
+import SSEPyVerif.Proofs.Schemes.DP17HT
 namespace SSEPy.C05
 open SSEPy.Sch SSEPy.Sch.Chain
 
@@ -478,5 +479,19 @@ theorem Pi2Lev.shape_indistinguishable (raw : RawCfg) (cfg : Pi2LevCfg) (hcfg : 
   refine ⟨by rw [a1, b1, hA], fun c c' hc hc' => by rw [a2 c hc, b2 c' hc'], ?_⟩
   rw [hW] at a3
   exact a3.trans b3.symm
+
+/-- DP17, the hash table: EXACTLY `N` entries — one per non-empty chunk, the rest random fillers — and every key and every
+    value is `param_digest_size` bytes long: the table tells `N` and nothing else.  For every configuration, key triple,
+    database and tape; `d` is the digest length of the hash function.  Hypotheses on the run (evaluated by the driver): the
+    `param_digest_size`-byte draws of the tape are pairwise distinct, and no chunk key `H(F_k1(w) ‖ c)` equals one of them. -/
+theorem DP17.ht_shape (cfg : DP17Cfg) (lv : Leaves) (d : Nat) (hd0 : 0 < d) (hsha : ∀ m, (lv.sha m).length = d)
+    (k1 k2 k3 : Bytes) (db : DB) (t t' : Tape) (edb : DP17EDB)
+    (hs : DP17.setup cfg lv [k1, k2, k3] db t = .ok (edb, t'))
+    (hnd : (drawsLen cfg.dsz t).Nodup)
+    (hfresh : ∀ levels ls ls1 HT t1, DP17.levelsOf cfg db.total = .ok levels →
+      DP17.initLevels db.total levels [] = .ok ls →
+      DP17.encDb cfg lv k1 k2 levels db ls [] t = .ok (ls1, HT, t1) → ∀ g ∈ HT.map (·.1), g ∉ drawsLen cfg.dsz t) :
+    edb.HT.length = db.total ∧ ∀ e ∈ edb.HT, e.1.length = cfg.dsz ∧ e.2.length = cfg.dsz :=
+  DP17.setup_ht_shape cfg lv d hd0 hsha k1 k2 k3 db t t' edb hs hnd hfresh
 
 end SSEPy.C05
